@@ -80,6 +80,8 @@ type Client struct {
 	Calls     map[string]int
 	NoNative  bool // answer Unimplemented for Teardown / TeardownAndDestroy
 	StreamBuf int
+	// Parent maps the goroutine id of a stream handler to the goroutine that made the call (under vrt).
+	Parent map[int]int
 }
 
 var registerOnce sync.Once
@@ -99,7 +101,7 @@ func RegisterConformanceResources() {
 // New returns a loopback client.
 func New(srv v1alpha1.StateServer) *Client {
 	RegisterConformanceResources()
-	return &Client{Srv: srv, Calls: map[string]int{}, StreamBuf: 4}
+	return &Client{Srv: srv, Calls: map[string]int{}, StreamBuf: 4, Parent: map[int]int{}}
 }
 
 var _ v1alpha1.StateClient = (*Client)(nil)
@@ -286,7 +288,9 @@ func (c *Client) Watch(ctx context.Context, in *v1alpha1.WatchRequest, _ ...grpc
 		s.onLost = func(idx int) error { return c.Faults.WatchLost(n, idx) }
 	}
 	req := roundTrip(in)
+	caller := vrt.CurID()
 	vrt.GoNamed("lb:watch-handler", func() {
+		c.Parent[vrt.CurID()] = caller
 		s.err = toStatus(sctx, c.Srv.Watch(req, s))
 		vrt.Close(s.done)
 	})
